@@ -86,9 +86,12 @@ R_Call(p, Dev) == \A s \in RealSegs(p) :
   /\ p[s].i.opc = CALL =>
        /\ p[s].i.src \in {0, 1}
        /\ p[s].i.src = 1 =>
-            LET t == SegStart(p, s) + 1 + p[s].i.imm IN
-            /\ InProg(p, t)
-            /\ "call_any_slot" \in Dev \/ (RealAt(p, t) /\ At(p, t).opc # 0)
+            \* (the displacement is a 32-bit immediate: test the range before adding, so that
+            \* no intermediate leaves TLC's 32-bit integers)
+            /\ p[s].i.imm >= -(SegStart(p, s) + 1)
+            /\ p[s].i.imm <= PLen(p) - SegStart(p, s) - 2
+            /\ LET t == SegStart(p, s) + 1 + p[s].i.imm IN
+               "call_any_slot" \in Dev \/ (RealAt(p, t) /\ At(p, t).opc # 0)
 
 R_Endian(p) == \A s \in RealSegs(p) : IsEndian(p[s].i.opc) => p[s].i.imm \in {16, 32, 64}
 
